@@ -7,9 +7,10 @@ CONSTANTS
   ScanMemo = "none"
   OperandScope = "per call"
   SubqueryColumns = "per table object"
+  ResultScope = "per execute call"
   JobSet = "2rows"
 INIT Init
 NEXT Next
-INVARIANTS TypeOK SerialInv OwnParameters OwnRow OwnStatement OwnOperands OwnNames
+INVARIANTS TypeOK SerialInv OwnParameters OwnRow OwnStatement OwnOperands OwnNames OwnResults
 PROPERTIES NonInterference NoSharedState JobConstant
 CHECK_DEADLOCK FALSE
